@@ -45,7 +45,7 @@ ASSUMPTIONS = ['reference paths are absolute (per-kind data locations are '
                'text is UTF-8; assertTextFilesCorrect in regeneration mode '
                'is not among the four result kinds the statement lists']
 
-KINDS = [None, 'table', 'graph', 'csv', 'zzz']
+KINDS = [None, 'table', 'graph', 'csv', 'zzz', 'parquet']
 WHATS = ['string', 'textfile', 'binary', 'frame']
 F_PARQUET = 'F-regen-parquet-dtype-roundtrip'
 
@@ -92,7 +92,7 @@ def content_strategy(what):
 
 
 def kinds_tokens():
-    k = st.sampled_from(['table', 'graph', 'csv', 'zzz'])
+    k = st.sampled_from(['table', 'graph', 'csv', 'zzz', 'parquet'])
     return st.lists(st.one_of(k, st.tuples(k, k).map(lambda t: ','.join(t))),
                     min_size=1, max_size=3)
 
@@ -265,7 +265,7 @@ def valid(case):
                           '-1W', '-W1', '-vW', '-0W', '-wquiet', '--wquiet'])
                 for t in s['tokens']:
                     if t not in vocab and not (t.strip(',') and all(
-                            k in ('table', 'graph', 'csv', 'zzz', '')
+                            k in ('table', 'graph', 'csv', 'zzz', 'parquet', '')
                             for k in t.split(','))):
                         return False
                 if op == 'argv':
